@@ -3,6 +3,7 @@
 from __future__ import annotations
 
 import itertools
+import re
 import os
 import shutil
 import tempfile
@@ -274,9 +275,29 @@ def compare_candidates(text, ref_tok, label):
     return res, len(ref), set(fr) == set(fh)
 
 
+def merged_stream(tok, text):
+    """The special tokens after Tokenizer.tokenize()'s overlap handling and merging (editions are part of a token)."""
+    return [(i, freeze(ser_token(t))) for i, t in tok.tokenize(text)[1]]
+
+
 def check_text(text, ref_name, citations=True):
     ref_tok = G["ac"] if ref_name == "AC" else G["ref"]
     res, nref, same = compare_candidates(text, ref_tok, f"reference={ref_name}")
+    if same and nref:
+        # candidate sets coincide: unless two distinct candidates cover the same characters, the token streams after
+        # merging must agree too (Hyperscan may report one pattern several times for one span; merging must absorb that)
+        try:
+            cands = [ser_token(t) for t in ref_tok.extract_tokens(text)]
+            spans = {}
+            for t in cands:
+                spans.setdefault((t["start"], t["end"]), set()).add(freeze({k: v for k, v in t.items() if k not in ("exact", "variation")}))
+            if all(len(v) == 1 for v in spans.values()):
+                a, b = merged_stream(G["hs"], text), merged_stream(ref_tok, text)
+                if a != b:
+                    d = next((x, y) for x, y in itertools.zip_longest(a, b) if x != y)
+                    res.append(("merged-differ", f"candidate sets coincide but the merged token streams differ: Hyperscan {d[0]} vs reference {d[1]}"))
+        except Exception:  # noqa: BLE001
+            pass
     if same and citations:
         spans = {}
         ok = True
@@ -477,6 +498,15 @@ def run_shard(sh):
                     text = left + w + right
                     res, nref = check_text(text, "AC", citations=False)
                     record({"part": "matrix", "text": text, "ref": "AC", "extractor": i}, h64(text), res, nref > 0, "matrix")
+            # the same witness with a placeholder page and/or before the final newline (both make Hyperscan report
+            # one pattern more than once for one span)
+            variants = {w + "\n", "x " + w + "\n"}
+            wp = re.sub(r"\d+$", "___", w)
+            if wp != w and ex[i].compiled_regex.fullmatch(wp):
+                variants |= {wp, wp + "\n", "“" + wp + " (1788)”"}
+            for text in sorted(variants):
+                res, nref = check_text(text, "AC", citations=False)
+                record({"part": "matrix", "text": text, "ref": "AC", "extractor": i}, h64(text), res, nref > 0, "matrix")
         return st
     if sh["part"] == "punct":
         # tokens that absorb surrounding punctuation through a character class (id., supra, stop words, section marks):
